@@ -89,7 +89,12 @@ VARIANTS = {
   fault('edge-default-not-space', F(CT, 'preceded_by', "else ' '", "else 'a'"), 'R-FLANK'),
   fault('whitespace-set-drops-nbsp', S(CT, "' ', '\\x85', '\\xa0',", "' ', '\\x85',"), 'R-FLANK-SETS'),
   fault('punctuation-drops-tilde', S(CT, "']', '^', '_', '`', '{', '|', '}', '~'},", "']', '^', '_', '`', '{', '|', '}'},"), 'R-FLANK-SETS'),
-  fault('rule-of-three-mod', F(CT, 'Delimiter.closed_by', '(self.number + other.number) % 3 != 0', '(self.number + other.number) % 3 == 1'), 'R-RULE3'),
+  fault('rule-of-three-mod', F(CT, 'Delimiter.closed_by', '(self.origin_number + other.origin_number) % 3 != 0', '(self.origin_number + other.origin_number) % 3 == 1'), 'R-RULE3'),
+  fault('rule-of-three-remaining-lengths', F(CT, 'Delimiter.closed_by', "            return ((self.origin_number + other.origin_number) % 3 != 0\n                    or (self.origin_number % 3 == 0 and other.origin_number % 3 == 0))",
+                                             "            return ((self.number + other.number) % 3 != 0\n                    or (self.number % 3 == 0 and other.number % 3 == 0))"), 'R-STACK-SIM'),
+  fault('opener-bound-per-character', F(CT, 'process_emphasis', 'closer_kind = (closer.type[0], closer.origin_number % 3, closer.open)', 'closer_kind = closer.type[0]'), 'R-STACK-SIM'),
+  fault('stale-opener-bounds', F(CT, 'process_emphasis', "                if bound is not None and bound > top:\n                    openers_bottom[kind] = top if top >= 0 else None\n", "                pass\n"), 'R-STACK-SIM'),
+  fault('closer-not-reexamined', F(CT, 'process_emphasis', "            if not closer.open:\n                delimiters.remove(closer)\n            else:\n                curr_pos += 1", "            if not closer.open:\n                delimiters.remove(closer)\n            curr_pos += 1"), 'R-STACK-SIM'),
   fault('remove-keeps-prefix', F(CT, 'Delimiter.remove', 'self.type = self.type[:-n]', 'self.type = self.type[:n]'), 'R-INV-DELIM'),
   fault('remove-left-number', F(CT, 'Delimiter.remove', "            self.start = self.start + n\n            self.number = self.end - self.start\n",
                                 "            self.start = self.start + n\n            self.number = self.number - 1\n"), 'R-INV-DELIM'),
@@ -253,7 +258,7 @@ VARIANTS = {
 BENIGN_EXTRA = {
  'C11': [benign('quote-restore-via-saved-value', F(BT, 'Quote.read', "        Paragraph.parse_setext = False\n        try:", "        saved_setext = Paragraph.parse_setext\n        Paragraph.parse_setext = False\n        try:"), 'extra temporary'),
          benign('code-matches-clear-method', F(CT, 'find_core_tokens', 'del _code_matches[:]', '_code_matches.clear()'), 'equivalent reset idiom')],
- 'C06': [benign('rule-of-three-or-is-equivalent', F(CT, 'Delimiter.closed_by', 'self.number % 3 == 0 and other.number % 3 == 0', 'self.number % 3 == 0 or other.number % 3 == 0'),
+ 'C06': [benign('rule-of-three-or-is-equivalent', F(CT, 'Delimiter.closed_by', 'self.origin_number % 3 == 0 and other.origin_number % 3 == 0', 'self.origin_number % 3 == 0 or other.origin_number % 3 == 0'),
                 'under (a+b) % 3 == 0, a % 3 == 0 implies b % 3 == 0: `or` is equivalent to `and` here')],
  'C07': [benign('first-wins-early-continue', F(BT, 'Footnote.append_footnotes', "            if key not in root.footnotes:\n                root.footnotes[key] = dest, title",
                                                "            if key in root.footnotes:\n                continue\n            root.footnotes[key] = dest, title"), 'equivalent guard idiom')],
